@@ -2068,7 +2068,11 @@ class ImportManager:
 
   @property
   def sorted_imports(self):
-    return sorted(self.imports, key=lambda s: s.module)
+    # `__gin__` feature imports have to precede all other imports, also those of
+    # modules whose names sort before '__gin__' (e.g. capitalized ones).
+    return sorted(
+        self.imports,
+        key=lambda s: (not s.module.startswith('__gin__.'), s.module))
 
   def add_import(self, statement: config_parser.ImportStatement):
     """Adds a single import to this `ImportManager` instance.
